@@ -125,24 +125,121 @@ package types
 //@   ensures result.ID == id && result.Price == price
 //@ func NewEventLeaseClosed
 //@   ensures result.ID == id && result.Price == price
+// ---- C16: events render to, and parse back from, attribute lists ----
+//@ spec carriesOID(attrs: []sdk.Attribute, id: OrderID): bool =
+//@     attrHas(attrs, "owner") && attrVal(attrs, "owner") == id.Owner && attrHas(attrs, "dseq") && attrVal(attrs, "dseq") == itoa(id.DSeq)
+//@     && attrHas(attrs, "gseq") && attrVal(attrs, "gseq") == itoa(id.GSeq) && attrHas(attrs, "oseq") && attrVal(attrs, "oseq") == itoa(id.OSeq)
+//@ spec carriesBID(attrs: []sdk.Attribute, id: BidID): bool =
+//@     attrHas(attrs, "owner") && attrVal(attrs, "owner") == id.Owner && attrHas(attrs, "dseq") && attrVal(attrs, "dseq") == itoa(id.DSeq)
+//@     && attrHas(attrs, "gseq") && attrVal(attrs, "gseq") == itoa(id.GSeq) && attrHas(attrs, "oseq") && attrVal(attrs, "oseq") == itoa(id.OSeq)
+//@     && attrHas(attrs, "provider") && attrVal(attrs, "provider") == id.Provider
+//@ spec carriesLID(attrs: []sdk.Attribute, id: LeaseID): bool =
+//@     attrHas(attrs, "owner") && attrVal(attrs, "owner") == id.Owner && attrHas(attrs, "dseq") && attrVal(attrs, "dseq") == itoa(id.DSeq)
+//@     && attrHas(attrs, "gseq") && attrVal(attrs, "gseq") == itoa(id.GSeq) && attrHas(attrs, "oseq") && attrVal(attrs, "oseq") == itoa(id.OSeq)
+//@     && attrHas(attrs, "provider") && attrVal(attrs, "provider") == id.Provider
+//@ spec carriesPrice(attrs: []sdk.Attribute, p: sdk.Coin): bool =
+//@     attrHas(attrs, "price-denom") && attrVal(attrs, "price-denom") == p.Denom && attrHas(attrs, "price-amount") && attrVal(attrs, "price-amount") == itoaZ(p.Amount)
+//@ spec carriesMHead(attrs: []sdk.Attribute, action: str): bool =
+//@     attrHas(attrs, "module") && attrVal(attrs, "module") == "market" && attrHas(attrs, "action") && attrVal(attrs, "action") == action
+// a nine-attribute list with these keys carries each key's value at its position (first match = only match)
+//@ lemma nineAttrs(attrs: []sdk.Attribute)
+//@   requires len(attrs) == 9 && attrs[0].Key == "module" && attrs[1].Key == "action" && attrs[2].Key == "owner" && attrs[3].Key == "dseq" && attrs[4].Key == "gseq"
+//@        && attrs[5].Key == "oseq" && attrs[6].Key == "provider" && attrs[7].Key == "price-denom" && attrs[8].Key == "price-amount"
+//@   ensures attrHas(attrs, "module") && attrVal(attrs, "module") == attrs[0].Value && attrHas(attrs, "action") && attrVal(attrs, "action") == attrs[1].Value
+//@        && attrHas(attrs, "owner") && attrVal(attrs, "owner") == attrs[2].Value && attrHas(attrs, "dseq") && attrVal(attrs, "dseq") == attrs[3].Value
+//@        && attrHas(attrs, "gseq") && attrVal(attrs, "gseq") == attrs[4].Value && attrHas(attrs, "oseq") && attrVal(attrs, "oseq") == attrs[5].Value
+//@        && attrHas(attrs, "provider") && attrVal(attrs, "provider") == attrs[6].Value && attrHas(attrs, "price-denom") && attrVal(attrs, "price-denom") == attrs[7].Value
+//@        && attrHas(attrs, "price-amount") && attrVal(attrs, "price-amount") == attrs[8].Value
+//@   trigger len(attrs)
+//@ func orderIDEVAttributes
+//@   fresh
+//@   ensures len(result) == 4 && result[0].Key == "owner" && result[0].Value == id.Owner && result[1].Key == "dseq" && result[1].Value == itoa(id.DSeq)
+//@        && result[2].Key == "gseq" && result[2].Value == itoa(id.GSeq) && result[3].Key == "oseq" && result[3].Value == itoa(id.OSeq)
+//@ func bidIDEVAttributes
+//@   fresh
+//@   ensures len(result) == 5 && result[0].Key == "owner" && result[0].Value == id.Owner && result[1].Key == "dseq" && result[1].Value == itoa(id.DSeq)
+//@        && result[2].Key == "gseq" && result[2].Value == itoa(id.GSeq) && result[3].Key == "oseq" && result[3].Value == itoa(id.OSeq)
+//@        && result[4].Key == "provider" && result[4].Value == id.Provider
+//@ func leaseIDEVAttributes
+//@   fresh
+//@   ensures len(result) == 5 && result[0].Key == "owner" && result[0].Value == id.Owner && result[1].Key == "dseq" && result[1].Value == itoa(id.DSeq)
+//@        && result[2].Key == "gseq" && result[2].Value == itoa(id.GSeq) && result[3].Key == "oseq" && result[3].Value == itoa(id.OSeq)
+//@        && result[4].Key == "provider" && result[4].Value == id.Provider
+//@ func priceEVAttributes
+//@   fresh
+//@   ensures len(result) == 2 && result[0].Key == "price-denom" && result[0].Value == price.Denom && result[1].Key == "price-amount" && result[1].Value == itoaZ(price.Amount)
+//@ func parseEVOrderID
+//@   ensures [roundtrip] forall id: OrderID {validBech32(id.Owner)} :: carriesOID(attrs, id) && canonicalAddr(id.Owner) ==> result1 == nil && result0 == id
+//@ func parseEVBidID
+//@   ensures [roundtrip] forall id: BidID {validBech32(id.Owner)} :: carriesBID(attrs, id) && canonicalAddr(id.Owner) && canonicalAddr(id.Provider) ==> result1 == nil && result0 == id
+//@ func parseEVLeaseID
+//@   ensures [roundtrip] forall id: LeaseID {validBech32(id.Owner)} :: carriesLID(attrs, id) && canonicalAddr(id.Owner) && canonicalAddr(id.Provider) ==> result1 == nil && result0 == id
+//@ func parseEVPriceAttributes
+//@   ensures [roundtrip] forall p: sdk.Coin {validDenom(p.Denom)} :: carriesPrice(attrs, p) && validDenom(p.Denom) && p.Amount >= 0 ==> result1 == nil && result0 == p
 //@ func (EventOrderCreated).ToSDKEvent
-//@   trusted
-//@   ensures evSig(result) == sigOrder(1, e.ID)
+//@   ensures assumed evSig(result) == sigOrder(1, e.ID)
+//@   ensures evType(result) == "akash.v1" && carriesMHead(evAttrs(result), "order-created") && carriesOID(evAttrs(result), e.ID)
 //@ func (EventOrderClosed).ToSDKEvent
-//@   trusted
-//@   ensures evSig(result) == sigOrder(2, e.ID)
+//@   ensures assumed evSig(result) == sigOrder(2, e.ID)
+//@   ensures evType(result) == "akash.v1" && carriesMHead(evAttrs(result), "order-closed") && carriesOID(evAttrs(result), e.ID)
 //@ func (EventBidCreated).ToSDKEvent
-//@   trusted
-//@   ensures evSig(result) == sigBid(1, e.ID, e.Price)
+//@   uses nineAttrs
+//@   ensures assumed evSig(result) == sigBid(1, e.ID, e.Price)
+//@   ensures [shape] len(evAttrs(result)) == 9 && evAttrs(result)[0].Key == "module" && evAttrs(result)[0].Value == "market" && evAttrs(result)[1].Key == "action" && evAttrs(result)[1].Value == "bid-created"
+//@        && evAttrs(result)[2].Key == "owner" && evAttrs(result)[2].Value == e.ID.Owner && evAttrs(result)[3].Key == "dseq" && evAttrs(result)[3].Value == itoa(e.ID.DSeq)
+//@        && evAttrs(result)[4].Key == "gseq" && evAttrs(result)[4].Value == itoa(e.ID.GSeq) && evAttrs(result)[5].Key == "oseq" && evAttrs(result)[5].Value == itoa(e.ID.OSeq)
+//@        && evAttrs(result)[6].Key == "provider" && evAttrs(result)[6].Value == e.ID.Provider && evAttrs(result)[7].Key == "price-denom" && evAttrs(result)[7].Value == e.Price.Denom
+//@        && evAttrs(result)[8].Key == "price-amount" && evAttrs(result)[8].Value == itoaZ(e.Price.Amount)
+//@   ensures evType(result) == "akash.v1" && carriesMHead(evAttrs(result), "bid-created") && carriesBID(evAttrs(result), e.ID) && carriesPrice(evAttrs(result), e.Price)
 //@ func (EventBidClosed).ToSDKEvent
-//@   trusted
-//@   ensures evSig(result) == sigBid(2, e.ID, e.Price)
+//@   uses nineAttrs
+//@   ensures assumed evSig(result) == sigBid(2, e.ID, e.Price)
+//@   ensures [shape] len(evAttrs(result)) == 9 && evAttrs(result)[0].Key == "module" && evAttrs(result)[0].Value == "market" && evAttrs(result)[1].Key == "action" && evAttrs(result)[1].Value == "bid-closed"
+//@        && evAttrs(result)[2].Key == "owner" && evAttrs(result)[2].Value == e.ID.Owner && evAttrs(result)[3].Key == "dseq" && evAttrs(result)[3].Value == itoa(e.ID.DSeq)
+//@        && evAttrs(result)[4].Key == "gseq" && evAttrs(result)[4].Value == itoa(e.ID.GSeq) && evAttrs(result)[5].Key == "oseq" && evAttrs(result)[5].Value == itoa(e.ID.OSeq)
+//@        && evAttrs(result)[6].Key == "provider" && evAttrs(result)[6].Value == e.ID.Provider && evAttrs(result)[7].Key == "price-denom" && evAttrs(result)[7].Value == e.Price.Denom
+//@        && evAttrs(result)[8].Key == "price-amount" && evAttrs(result)[8].Value == itoaZ(e.Price.Amount)
+//@   ensures evType(result) == "akash.v1" && carriesMHead(evAttrs(result), "bid-closed") && carriesBID(evAttrs(result), e.ID) && carriesPrice(evAttrs(result), e.Price)
 //@ func (EventLeaseCreated).ToSDKEvent
-//@   trusted
-//@   ensures evSig(result) == sigLease(1, e.ID, e.Price)
+//@   uses nineAttrs
+//@   ensures assumed evSig(result) == sigLease(1, e.ID, e.Price)
+//@   ensures [shape] len(evAttrs(result)) == 9 && evAttrs(result)[0].Key == "module" && evAttrs(result)[0].Value == "market" && evAttrs(result)[1].Key == "action" && evAttrs(result)[1].Value == "lease-created"
+//@        && evAttrs(result)[2].Key == "owner" && evAttrs(result)[2].Value == e.ID.Owner && evAttrs(result)[3].Key == "dseq" && evAttrs(result)[3].Value == itoa(e.ID.DSeq)
+//@        && evAttrs(result)[4].Key == "gseq" && evAttrs(result)[4].Value == itoa(e.ID.GSeq) && evAttrs(result)[5].Key == "oseq" && evAttrs(result)[5].Value == itoa(e.ID.OSeq)
+//@        && evAttrs(result)[6].Key == "provider" && evAttrs(result)[6].Value == e.ID.Provider && evAttrs(result)[7].Key == "price-denom" && evAttrs(result)[7].Value == e.Price.Denom
+//@        && evAttrs(result)[8].Key == "price-amount" && evAttrs(result)[8].Value == itoaZ(e.Price.Amount)
+//@   ensures evType(result) == "akash.v1" && carriesMHead(evAttrs(result), "lease-created") && carriesLID(evAttrs(result), e.ID) && carriesPrice(evAttrs(result), e.Price)
 //@ func (EventLeaseClosed).ToSDKEvent
-//@   trusted
-//@   ensures evSig(result) == sigLease(2, e.ID, e.Price)
+//@   uses nineAttrs
+//@   ensures assumed evSig(result) == sigLease(2, e.ID, e.Price)
+//@   ensures [shape] len(evAttrs(result)) == 9 && evAttrs(result)[0].Key == "module" && evAttrs(result)[0].Value == "market" && evAttrs(result)[1].Key == "action" && evAttrs(result)[1].Value == "lease-closed"
+//@        && evAttrs(result)[2].Key == "owner" && evAttrs(result)[2].Value == e.ID.Owner && evAttrs(result)[3].Key == "dseq" && evAttrs(result)[3].Value == itoa(e.ID.DSeq)
+//@        && evAttrs(result)[4].Key == "gseq" && evAttrs(result)[4].Value == itoa(e.ID.GSeq) && evAttrs(result)[5].Key == "oseq" && evAttrs(result)[5].Value == itoa(e.ID.OSeq)
+//@        && evAttrs(result)[6].Key == "provider" && evAttrs(result)[6].Value == e.ID.Provider && evAttrs(result)[7].Key == "price-denom" && evAttrs(result)[7].Value == e.Price.Denom
+//@        && evAttrs(result)[8].Key == "price-amount" && evAttrs(result)[8].Value == itoaZ(e.Price.Amount)
+//@   ensures evType(result) == "akash.v1" && carriesMHead(evAttrs(result), "lease-closed") && carriesLID(evAttrs(result), e.ID) && carriesPrice(evAttrs(result), e.Price)
+// every event this module emits parses back to the typed event that was emitted
+//@ func ParseEvent
+//@   ensures [ocreated] forall id: OrderID {validBech32(id.Owner)} :: ev.Type == "akash.v1" && ev.Module == "market" && ev.Action == "order-created" && old(carriesOID(ev.Attributes, id))
+//@        && canonicalAddr(id.Owner) ==> result1 == nil && typeis(result0, EventOrderCreated) && unbox(result0, EventOrderCreated).ID == id
+//@   ensures [oclosed] forall id: OrderID {validBech32(id.Owner)} :: ev.Type == "akash.v1" && ev.Module == "market" && ev.Action == "order-closed" && old(carriesOID(ev.Attributes, id))
+//@        && canonicalAddr(id.Owner) ==> result1 == nil && typeis(result0, EventOrderClosed) && unbox(result0, EventOrderClosed).ID == id
+//@   ensures [bcreated] forall id: BidID, p: sdk.Coin {validBech32(id.Owner), validDenom(p.Denom)} :: ev.Type == "akash.v1" && ev.Module == "market" && ev.Action == "bid-created"
+//@        && old(carriesBID(ev.Attributes, id) && carriesPrice(ev.Attributes, p)) && canonicalAddr(id.Owner) && canonicalAddr(id.Provider) && validDenom(p.Denom) && p.Amount >= 0 ==>
+//@        result1 == nil && typeis(result0, EventBidCreated) && unbox(result0, EventBidCreated).ID == id && unbox(result0, EventBidCreated).Price == p
+//@   ensures [bclosed] forall id: BidID, p: sdk.Coin {validBech32(id.Owner), validDenom(p.Denom)} :: ev.Type == "akash.v1" && ev.Module == "market" && ev.Action == "bid-closed"
+//@        && old(carriesBID(ev.Attributes, id) && carriesPrice(ev.Attributes, p)) && canonicalAddr(id.Owner) && canonicalAddr(id.Provider) && validDenom(p.Denom) && p.Amount >= 0 ==>
+//@        result1 == nil && typeis(result0, EventBidClosed) && unbox(result0, EventBidClosed).ID == id && unbox(result0, EventBidClosed).Price == p
+//@   ensures [lcreated] forall id: LeaseID, p: sdk.Coin {validBech32(id.Owner), validDenom(p.Denom)} :: ev.Type == "akash.v1" && ev.Module == "market" && ev.Action == "lease-created"
+//@        && old(carriesLID(ev.Attributes, id) && carriesPrice(ev.Attributes, p)) && canonicalAddr(id.Owner) && canonicalAddr(id.Provider) && validDenom(p.Denom) && p.Amount >= 0 ==>
+//@        result1 == nil && typeis(result0, EventLeaseCreated) && unbox(result0, EventLeaseCreated).ID == id && unbox(result0, EventLeaseCreated).Price == p
+//@   ensures [lclosed] forall id: LeaseID, p: sdk.Coin {validBech32(id.Owner), validDenom(p.Denom)} :: ev.Type == "akash.v1" && ev.Module == "market" && ev.Action == "lease-closed"
+//@        && old(carriesLID(ev.Attributes, id) && carriesPrice(ev.Attributes, p)) && canonicalAddr(id.Owner) && canonicalAddr(id.Provider) && validDenom(p.Denom) && p.Amount >= 0 ==>
+//@        result1 == nil && typeis(result0, EventLeaseClosed) && unbox(result0, EventLeaseClosed).ID == id && unbox(result0, EventLeaseClosed).Price == p
+
+//@ property C16 := lemma:nineAttrs, orderIDEVAttributes#*, bidIDEVAttributes#*, leaseIDEVAttributes#*, priceEVAttributes#*, parseEVOrderID#*, parseEVBidID#*, parseEVLeaseID#*, parseEVPriceAttributes#*,
+//@     ParseEvent#*, (EventOrderCreated).ToSDKEvent#*, (EventOrderClosed).ToSDKEvent#*, (EventBidCreated).ToSDKEvent#*, (EventBidClosed).ToSDKEvent#*,
+//@     (EventLeaseCreated).ToSDKEvent#*, (EventLeaseClosed).ToSDKEvent#*
 
 //@ property C08 := (OrderID).Validate#*, (MsgCreateBid).ValidateBasic#*, (Order).Price#*, (Order).MatchRequirements#*, (Order).MatchAttributes#*
 //@ property C05 := EscrowAccountForBid#*, EscrowPaymentForLease#*, LeaseIDFromEscrowAccount#*
